@@ -213,7 +213,7 @@ def run(ctx):
         if good:
             def drop_incr(ev):
                 i = next(j for j, e in enumerate(ev) if e.get("ev") == "ok" and any(
-                    x.get("ev") == "inv" and x["id"] == e["id"] and x["op"]["t"] == "incr" for x in ev[:j]))
+                    x.get("ev") == "inv" and x["id"] == e["id"] and x["op"]["t"] == "hincrby" for x in ev[:j]))   # never overwritten
                 idd = ev[i]["id"]
                 return [e for e in ev if not (e.get("id") == idd and e.get("ev") in ("inv", "ok"))]
 
@@ -236,7 +236,7 @@ def run(ctx):
                         out[i]["res"], out[j]["res"] = out[j]["res"], out[i]["res"]
                         break
                 return out
-            for nm, fn in (("drop-acked-incr", drop_incr), ("one-replica-differs", one_replica_differs), ("swap-two-answers", swap_answers)):
+            for nm, fn in (("drop-acked-hincrby", drop_incr), ("one-replica-differs", one_replica_differs), ("swap-two-answers", swap_answers)):
                 p = os.path.join(ctx.sub("selftest"), nm + ".ndjson")
                 N.rewrite(good, p, fn)
                 v = N.validate(ctx, "ZLinTrace", p, "self-" + nm, timeout=420)
